@@ -64,6 +64,12 @@ class Ctx:
         self.notes = []
         self.scratch = tempfile.mkdtemp(prefix="verif-%s-" % prop, dir=os.environ.get("VERIF_SCRATCH"))
         SCRATCHES.append(self.scratch)
+        # everything the code under test (and TLC) puts into "the temp dir" lands in the scratch
+        # directory, which is removed when the check ends - nothing is left behind in /tmp
+        self.tmp = os.path.join(self.scratch, "tmp")
+        os.makedirs(self.tmp, exist_ok=True)
+        os.environ["TMPDIR"] = self.tmp
+        tempfile.tempdir = None
         self._known = [k for k in _known_findings() if k.get("property") == prop and k.get("status") == "open"]
 
     # ------------------------------------------------------------------ evidence
